@@ -9,9 +9,11 @@ import time
 from contextlib import contextmanager
 
 ROOT = os.path.dirname(os.path.dirname(os.path.abspath(__file__)))
-REPO = "/repo"
+# VERIF_REPO / VERIF_CACHE_DIR: development aid for the seeded-defect drill (a scratch worktree of /repo with a patch applied,
+# built into its own cache so that the registered checks' binaries are not disturbed). The registered commands never set them.
+REPO = os.environ.get("VERIF_REPO", "/repo")
 COQ = os.path.join(ROOT, "coq")
-CACHE = os.path.join(ROOT, ".cache")
+CACHE = os.environ.get("VERIF_CACHE_DIR", os.path.join(ROOT, ".cache"))
 HARNESS_DIR = os.path.join(ROOT, "harness")
 HARNESS_TARGET = os.path.join(CACHE, "harness-target")
 REPO_TARGET = os.path.join(CACHE, "repo-target")
